@@ -274,8 +274,13 @@ func cmdCheck(args []string) int {
 		if r.Reach["end"] == 0 && len(r.Inconclusive) == 0 && len(r.Violations) == 0 {
 			inconclusive = append(inconclusive, label+": VACUOUS (no path reached the end of the harness)")
 		}
+		seenAssert := map[string]bool{}
 		for vi := range r.Violations {
 			v := &r.Violations[vi]
+			if seenAssert[v.AssertID+"|"+v.Pos] {
+				continue // one replay per (harness instance, assertion, position)
+			}
+			seenAssert[v.AssertID+"|"+v.Pos] = true
 			matched := false
 			if i < nBase {
 				for ki := range known {
